@@ -1,3 +1,4 @@
+import Props.C09Formulas
 import Proofs.PointwiseCalc
 import Mathlib.Analysis.SpecialFunctions.Exp
 import Mathlib.Analysis.SpecialFunctions.Log.Basic
